@@ -6,7 +6,7 @@ import os
 HERE = os.path.dirname(os.path.dirname(os.path.abspath(__file__)))
 
 BASELINE_CMD = ("cd /repo && /venv/bin/python -m pytest -ra -q -p no:cacheprovider --timeout=900 "
-                "--continue-on-collection-errors kmip/tests/unit")
+                "--continue-on-collection-errors")
 
 # id -> (technique, level text, level note)
 CHECKS = {
